@@ -78,3 +78,17 @@ Fixpoint find_index {A} (f : A -> bool) (l : list A) : option nat :=
 Definition cfg_get (c : list (str * argv)) (k : str) (d : Z) : argv := match alookup k c with Some v => v | None => ANum d end.
 (* int(v); None = ValueError *)
 Definition py_int (v : argv) : option Z := match v with ANum z => Some z | AText s => parse_int s end.
+
+(* the shape of TriggerHandler.__process_call_backs: while the stack is not empty, look at the top entry; the translated BODY
+   says: leave it and stop / pop it and stop / pop it and go on with these flags *)
+Inductive verdict := VStop | VPopStop | VPopContinue (flag : bool).
+Fixpoint pop_loop {C} (body : C -> bool -> verdict) (st : list C) (flag : bool) : list C * list C :=
+  match st with
+  | [] => ([], [])
+  | c :: r =>
+      match body c flag with
+      | VStop => ([], st)
+      | VPopStop => ([c], r)
+      | VPopContinue f' => let '(d, p) := pop_loop body r f' in (c :: d, p)
+      end
+  end.
